@@ -4,6 +4,10 @@
 (* OpCatalog is the catalogue of document-transforming operations with finite parameter   *)
 (* domains; one catalogue entry is a record [op, s, n, b] (string, number and flag        *)
 (* parameter; unused ones are "" / 0 / FALSE).  A history is an input plus 1..MaxLen       *)
+(* entries.  The input is a BATCH: the history is applied to each document of the batch in  *)
+(* turn, in one process, with the SAME caller-owned description objects (n-up, watermark,  *)
+(* cut, resize, zoom, box descriptions, configurations), as a caller processing several    *)
+(* files would; every output of every document is validated.  The model tracks            *)
 (* entries; the model tracks whether the current document is encrypted (password-         *)
 (* changing operations and decryption need an encrypted document, encryption an           *)
 (* unencrypted one) and that validity is preserved by every step.                         *)
@@ -12,10 +16,18 @@
 (* outValid); Judge is the verdict on a record (see ValidOpsTrace).                       *)
 EXTENDS Integers, Sequences, FiniteSets, TLC, Json
 
-CONSTANTS Inputs, MaxLen, Emit
+CONSTANTS Batches, MaxLen, Emit     \* Batches: set of sequences of input names
 
-VARIABLES hist, input, enc, valid, done
-vars == <<hist, input, enc, valid, done>>
+VARIABLES hist, inputs, enc, valid, done
+vars == <<hist, inputs, enc, valid, done>>
+
+(* the batches used by the configurations (a cfg file cannot spell a sequence): Batches <- one of these *)
+BatchesQuick == {<<"zine", "nested5", "forma", "formb", "v20">>}
+BatchesAll == {<<"zine", "nested5", "forma", "formb", "v20">>, <<"formb", "forma", "formc", "tree5">>, <<"v20", "text", "rot", "walden">>,
+               <<"form", "objstm4", "simple3", "nested5">>, <<"nested5", "zine">>}
+BatchesOne == {<<"simple3">>}
+BatchesSim == {<<"zine", "nested5">>, <<"rot", "text">>, <<"walden", "v20">>, <<"form", "forma">>, <<"formb", "formc">>, <<"simple3", "tree5">>,
+               <<"objstm4", "nested5">>, <<"v20", "zine">>}
 
 E(op, S, N, B) == {[op |-> op, s |-> s, n |-> n, b |-> b] : s \in S, n \in N, b \in B}
 No == {FALSE}
@@ -50,7 +62,7 @@ OpCatalog ==
   \cup E("boxes", {"crop:[10 10 200 200]", "trim:10", "bleed:5, art:20"}, {0}, No)
   \cup E("removeboxes", {"crop", "trim,bleed"}, {0}, No)
   \cup E("crop", {"[0 0 100 100]", "10"}, {0}, No)
-  \cup E("viewerpref", {""}, {1, 2, 3}, No)
+  \cup E("viewerpref", {""}, {1, 2, 3, 4}, No)                          \* 4: Enforce + PrintScaling AppDefault
   \cup E("resetviewerpref", {""}, {0}, No)
   \cup E("pagelayout", {""}, {0, 1, 2, 3, 4, 5}, No)
   \cup E("resetpagelayout", {""}, {0}, No)
@@ -61,26 +73,27 @@ OpCatalog ==
   \cup E("changeupw", {""}, {0}, No)
   \cup E("changeopw", {""}, {0}, No)
   \cup E("setperm", {""}, {0, 1, 2}, No)                                \* none / print / all
-  \cup E("merge", {"create", "append", "zip"}, {0, 1}, BOOLEAN)         \* n: second file shorter / longer than the inputs
+  \cup E("merge", {"create", "append", "zip"}, {0, 1, 2, 3, 4}, BOOLEAN)         \* n: the other file: 0/1 shorter/longer, nested page tree;
+                                                                        \* 2/3/4 AcroForms without / with form-level DA and Q, fields with/without own DA
                                                                         \* (nested page tree, inherited attributes); b: divider page
   \cup E("split", {""}, {1, 2}, No)                                     \* span
   \cup E("splitbypagenr", {""}, {2}, No)
   \cup E("extractpages", {"1", "l"}, {0}, No)
-  \cup E("nup", {""}, {2, 3, 4, 8, 9}, No)
+  \cup E("nup", {"", "bo:off, ma:10"}, {2, 3, 4, 8, 9}, No)
   \cup E("grid", {""}, {12, 22, 31}, No)                                \* rows*10 + cols
-  \cup E("booklet", {""}, {2, 4, 6}, No)
+  \cup E("booklet", {"", "guides:on"}, {2, 4, 6}, No)
   \cup E("resize", {"scale:0.5", "form:A5", "dim:200 300"}, {0}, No)
   \cup E("zoom", {"factor:0.5", "factor:2", "hmargin:10"}, {0}, No)
   \cup E("cut", {"hor:.5", "ver:.25 .5", "hor:.5, ver:.5"}, {0}, No)
   \cup E("ndown", {""}, {2, 3, 4}, No)
-  \cup E("poster", {"f:A5", "dim:200 200"}, {0}, No)
+  \cup E("poster", {"f:A5", "dim:200 200", "dim:60 80"}, {0}, No)
   \cup E("formlock", {""}, {0}, No)
   \cup E("formreset", {""}, {0}, No)
   \cup E("formremove", {"firstName1"}, {0}, No)
 
 NeedsEncrypted == {"decrypt", "changeupw", "changeopw", "setperm"}
 
-Init == hist = <<>> /\ input \in Inputs /\ enc = FALSE /\ valid = TRUE /\ done = FALSE
+Init == hist = <<>> /\ inputs \in Batches /\ enc = FALSE /\ valid = TRUE /\ done = FALSE
 
 Enabled(e) == /\ (e.op \in NeedsEncrypted => enc)
               /\ (e.op = "encrypt" => ~enc)
@@ -92,10 +105,10 @@ Step == /\ Len(hist) < MaxLen
              /\ hist' = Append(hist, e)
              /\ enc' = (IF e.op = "encrypt" THEN TRUE ELSE IF e.op = "decrypt" THEN FALSE ELSE enc)
         /\ valid' = valid                                     \* the property: a successful operation keeps the document valid
-        /\ UNCHANGED <<input, done>>
+        /\ UNCHANGED <<inputs, done>>
 
 (* the history is complete (a separate step, so that simulation prints exactly the sampled history) *)
-Finish == Len(hist) = MaxLen /\ ~done /\ done' = TRUE /\ UNCHANGED <<hist, input, enc, valid>>
+Finish == Len(hist) = MaxLen /\ ~done /\ done' = TRUE /\ UNCHANGED <<hist, inputs, enc, valid>>
 
 Next == Step \/ Finish
 Spec == Init /\ [][Next]_vars
@@ -103,7 +116,7 @@ Spec == Init /\ [][Next]_vars
 ValidPreserved == [][valid => valid']_vars
 TypeOK == Len(hist) <= MaxLen /\ enc \in BOOLEAN
 
-Case == [input |-> input, hist |-> hist]
+Case == [inputs |-> inputs, hist |-> hist]
 EmitCase == (Emit /\ done) => PrintT(<<"CASE", ToJson(Case)>>)
 
 (* the verdict on one recorded step of a replayed history *)
